@@ -57,6 +57,8 @@ func intRange(b *types.Basic) (lo, hi *big.Int) {
 	return nil, nil
 }
 
+var zeroArrSorts = map[string]string{}
+
 type shapeCache struct {
 	m map[types.Type][]Leaf
 }
@@ -168,6 +170,12 @@ func zeroLeaf(l *Leaf) string {
 	case KFlt:
 		return "|flt!zero|"
 	case KArr:
+		if strings.Contains(l.Sort, " U)") || strings.Contains(l.Sort, " Flt)") || strings.Contains(l.Sort, " Str)") {
+			// cvc5 accepts only values in constant arrays: use an unconstrained array of the opaque sort
+			name := "|zeroarr!" + strings.NewReplacer("(", "_", ")", "_", " ", "_").Replace(l.Sort) + "|"
+			zeroArrSorts[name] = l.Sort
+			return name
+		}
 		return constArr(l.Sort, zeroLeaf(l.Elem))
 	}
 	return "|u!zero|"
